@@ -62,6 +62,7 @@ Proof.
     cbn in Hi. inversion Hi. exists jr'. split; [reflexivity|]. congruence.
   - exact Ht.
   - exact Hf.
+  - intros j jr' w E. destruct (Hget j jr' E) as [jr [E0 Ew]]. rewrite <- Ew. eapply inv_wd; eauto.
 Qed.
 
 Lemma Inv_enter : forall s i ir, Inv s -> frame s = None -> itab s i = Some ir -> Inv (enter s i ir).
@@ -223,7 +224,8 @@ Proof.
     cbn [loop_ev] in El. rewrite F, Ei in El.
     destruct (deliver_one_ok sc s i ir e H F Ei) as
       [[Hr Ed]|(w & wr & s1 & s2 & lg & Hr & Hw & Hwi & Hwd & Es1 & H1 & F1 & Hd1 & Ha1 & E2 & H2 & M2 & F2 & D2 & Ed)].
-    + rewrite Ed, F in El. unfold reg_of in Hr. rewrite Hc in Hr. cbn [mon_walk]. rewrite Hr.
+    + rewrite Ed, F in El. unfold reg_of in Hr. rewrite Hc in Hr. cbn [mon_walk].
+      rewrite (route_lookup _ _ (inv_view_ok s i ir H Ei)), Hr.
       destruct (loop_ev sc s evs) as [o tr2] eqn:E'. injection El as Eo Etr. subst o tr. cbn [app].
       apply (IH s dead (i_watches ir) s' tr2); assumption.
     + rewrite Ed in El. unfold reg_of in Hr. rewrite Hc in Hr.
@@ -232,13 +234,13 @@ Proof.
       assert (Hhead : forall tr',
         (match d_exit (mk_delivery i w wr e s1 s2 lg) with
          | None => unreg_inst i lg && match tr' with [] => true | _ :: _ => false end
-         | Some x => negb (unreg_inst i lg) &&
+         | Some x => negb (unreg_inst i lg) && view_ok x &&
                      forallb (fun w' => negb (mem_id w' (map snd x)))
                              (dead_after lg (if is_dropped (e_mask e) (w_mask wr) then w :: dead else dead)) &&
                      mon_walk sc i x (dead_after lg (if is_dropped (e_mask e) (w_mask wr) then w :: dead else dead)) evs tr'
          end) = true ->
         mon_walk sc i (i_watches ir) dead (e :: evs) (mk_delivery i w wr e s1 s2 lg :: tr') = true).
-      { intros tr' Hrest. cbn [mon_walk]. rewrite Hr.
+      { intros tr' Hrest. cbn [mon_walk]. rewrite (route_lookup _ _ (inv_view_ok s i ir H Ei)), Hr.
         cbn [mk_delivery d_w d_wd d_mask d_cookie d_name d_wmask d_entry d_acts].
         rewrite Pos.eqb_refl, !Z.eqb_refl, zlist_eqb_refl. cbn [andb].
         rewrite mem_id_false by (intros Hin; apply Hdead in Hin; congruence). cbn [negb andb].
@@ -247,7 +249,7 @@ Proof.
             - unfold drop_watch, watches_of. rewrite Ei. cbn [free_watch set_inst set_itab set_wtab itab].
               rewrite upd_same. cbn [i_watches]. rewrite (remove_key_without _ _ w Hnd Hr). apply view_eqb_refl.
             - rewrite Hc. apply view_eqb_refl. }
-        rewrite M2, acts_eqb_refl. cbn [andb]. exact Hrest. }
+        rewrite M2, acts_eqb_refl. cbn [andb]. rewrite (do_acts_reg_ok _ _ _ _ E2). cbn [andb]. exact Hrest. }
       assert (Hdead1 : forall x, In x (dead_after lg (if is_dropped (e_mask e) (w_mask wr) then w :: dead else dead)) -> wtab s2 x = None).
       { apply D2. intros x Hx. destruct (is_dropped (e_mask e) (w_mask wr)) eqn:Edr.
         - destruct Hx as [<-|Hx]; [apply Hd1; reflexivity|apply Ha1; auto].
@@ -258,7 +260,7 @@ Proof.
       * rewrite F2 in El. destruct (loop_ev sc s2 evs) as [o tr2] eqn:E'. injection El as Eo Etr. subst o tr. cbn [app].
         apply Hhead. cbn [mk_delivery d_exit]. rewrite Eu.
         destruct (itab s2 i) as [ir2|] eqn:Ei2; [|exfalso; eapply inv_frame; eauto].
-        unfold watches_of. rewrite Ei2. cbn [negb andb].
+        unfold watches_of. rewrite Ei2. cbn [negb andb]. rewrite (inv_view_ok s2 i ir2 H2 Ei2). cbn [andb].
         replace (forallb _ _) with true.
         2:{ symmetry. apply forallb_forall. intros x Hx. apply Hdead1 in Hx.
             rewrite mem_id_false; [reflexivity|]. eapply inv_absent_not_in; eauto. }
@@ -272,8 +274,8 @@ Proof.
 Qed.
 
 Lemma mon_walk_cons : forall sc i cur dead e evs tr, mon_walk sc i cur dead (e :: evs) tr = true ->
-  (lookup cur (e_wd e) = None /\ mon_walk sc i cur dead evs tr = true) \/
-  (exists w d tr', lookup cur (e_wd e) = Some w /\ tr = d :: tr' /\
+  (route cur (e_wd e) = None /\ mon_walk sc i cur dead evs tr = true) \/
+  (exists w d tr', route cur (e_wd e) = Some w /\ tr = d :: tr' /\
      d_w d = w /\ d_wd d = e_wd e /\ d_mask d = e_mask e /\ d_cookie d = e_cookie e /\ d_name d = e_name e /\
      ~ In w dead /\
      match d_exit d with
@@ -286,17 +288,17 @@ Lemma mon_walk_cons : forall sc i cur dead e evs tr, mon_walk sc i cur dead (e :
      end).
 Proof.
   intros sc i cur dead e evs tr Hm. cbn [mon_walk] in Hm.
-  destruct (lookup cur (e_wd e)) as [w|]; [right|left; auto].
+  destruct (route cur (e_wd e)) as [w|]; [right|left; auto].
   destruct tr as [|d tr']; [discriminate|].
   rewrite !andb_true_iff in Hm.
-  destruct Hm as [[[[[[[[M1 M2] M3] M4] M5] M6] M7] M8] M9].
+  destruct Hm as [[[[[[[[[M1 M2] M3] M4] M5] M6] M7] M8] Mr] M9].
   exists w, d, tr'. split; [reflexivity|]. split; [reflexivity|].
   apply Pos.eqb_eq in M1. apply Z.eqb_eq in M2, M3, M4. apply zlist_eqb_eq in M5.
   split; [assumption|]. split; [assumption|]. split; [assumption|]. split; [assumption|]. split; [assumption|].
   split.
   { intros Hin. apply mem_id_in in Hin. rewrite Hin in M6. discriminate. }
   destruct (d_exit d) as [x|].
-  - rewrite !andb_true_iff in M9. destruct M9 as [[N1 N2] N3].
+  - rewrite !andb_true_iff in M9. destruct M9 as [[[N1 Nv] N2] N3].
     apply negb_true_iff in N1. split; [assumption|]. split; [|assumption].
     intros w' Hw' Hin. rewrite forallb_forall in N2. specialize (N2 w' Hw').
     apply mem_id_in in Hin. rewrite Hin in N2. discriminate.
@@ -372,6 +374,35 @@ Proof.
       destruct (d_exit d) as [x|].
       * destruct Mx as (_ & _ & Mx). eapply IH; eauto.
       * destruct Mx as (_ & Mx). subst tr'. constructor.
+Qed.
+
+(* the wd -1 clauses on an accepted trace *)
+Lemma reg_rc_ok_spec : forall lg, forallb reg_rc_ok lg = true ->
+  forall w i m rc, In (ARegW w i (-1) m, rc) lg -> rc = -1 \/ rc = 1.
+Proof.
+  intros lg H w i m rc Hin. rewrite forallb_forall in H. specialize (H _ Hin). cbn in H.
+  apply orb_prop in H. destruct H as [H|H]; apply Z.eqb_eq in H; auto.
+Qed.
+
+Lemma mon_walk_nowd : forall sc i evs cur dead tr, mon_walk sc i cur dead evs tr = true -> Forall nowd_ok tr.
+Proof.
+  induction evs as [|e evs IH]; intros cur dead tr Hm.
+  - cbn [mon_walk] in Hm. destruct tr; [constructor|discriminate].
+  - cbn [mon_walk] in Hm. destruct (route cur (e_wd e)) as [w|] eqn:Er; [|eapply IH; eauto].
+    destruct tr as [|d tr']; [discriminate|].
+    rewrite !andb_true_iff in Hm.
+    destruct Hm as [[[[[[[[[M1 M2] M3] M4] M5] M6] M7] M8] Mr] M9].
+    apply route_some in Er. destruct Er as [Hwd _]. apply Z.eqb_eq in M2.
+    assert (Hd : d_wd d <> -1 /\ (forall w0 i0 m rc, In (ARegW w0 i0 (-1) m, rc) (d_acts d) -> rc = -1 \/ rc = 1)).
+    { split; [congruence|]. apply reg_rc_ok_spec. assumption. }
+    destruct Hd as [Hd1 Hd2].
+    destruct (d_exit d) as [x|] eqn:Ex.
+    + rewrite !andb_true_iff in M9. destruct M9 as [[[N1 Nv] N2] N3].
+      constructor; [|eapply IH; eauto].
+      split; [assumption|]. split; [assumption|].
+      intros x0 w0 E0. rewrite Ex in E0. inversion E0; subst x0. exact (proj1 (view_ok_spec _) Nv w0).
+    + rewrite andb_true_iff in M9. destruct M9 as [N1 N2]. destruct tr'; [|discriminate].
+      constructor; [|constructor]. split; [assumption|]. split; [assumption|]. intros x0 w0 E0. rewrite Ex in E0. discriminate.
 Qed.
 
 (* ---------- one call of the fd handler ---------- *)
@@ -477,14 +508,15 @@ Proof.
     as (s2 & tr & El & Eg & H2 & F2 & R & D).
   { apply do_read_eintrs; [assumption|discriminate]. }
   exists (leave s2), tr. split; [assumption|]. unfold mon_feed.
+  rewrite (inv_view_ok s i ir H Ei). cbn [andb].
   apply (loop_ev_mon sc i evs (enter s i ir) [] (i_watches ir) s2 tr); auto.
   - apply Inv_enter; assumption.
   - unfold watches_of, enter. cbn [set_frame set_inst set_itab itab]. rewrite upd_same. reflexivity.
   - intros x [].
 Qed.
 
-Lemma c20_monitor_accepts_eagain : forall sc i c0, mon_feed sc i c0 [] [] = true.
-Proof. reflexivity. Qed.
+Lemma c20_monitor_accepts_eagain : forall sc s i ir, Inv s -> itab s i = Some ir -> mon_feed sc i (i_watches ir) [] [] = true.
+Proof. intros sc s i ir H Ei. unfold mon_feed. rewrite (inv_view_ok s i ir H Ei). reflexivity. Qed.
 
 (* what acceptance by the monitor means, for any observed trace *)
 Lemma c20_monitor_sound : forall sc i c0 evs tr, mon_feed sc i c0 evs tr = true ->
@@ -493,9 +525,109 @@ Lemma c20_monitor_sound : forall sc i c0 evs tr, mon_feed sc i c0 evs tr = true 
     (unreg_inst i (d_acts d) = true -> tr2 = []) /\
     (forall w, kills d w -> forall t1 d' t2, tr2 = t1 ++ d' :: t2 -> no_reg w t1 -> d_w d' <> w).
 Proof.
-  intros sc i c0 evs tr Hm. unfold mon_feed in Hm. split.
+  intros sc i c0 evs tr Hm. unfold mon_feed in Hm. apply andb_prop in Hm. destruct Hm as [_ Hm]. split.
   - eapply mon_walk_sublist; eauto.
   - intros. eapply mon_walk_suppress; eauto.
+Qed.
+
+(* ... and the wd -1 clauses: no watch set the monitor saw has an entry under -1, no delivered event has
+   wd -1, no registration answered -1 by inotify_add_watch succeeded in a handler *)
+Lemma c20_monitor_sound_nowd : forall sc i c0 evs tr, mon_feed sc i c0 evs tr = true ->
+  (forall w, ~ In (-1, w) c0) /\ Forall nowd_ok tr.
+Proof.
+  intros sc i c0 evs tr Hm. unfold mon_feed in Hm. apply andb_prop in Hm. destruct Hm as [Hv Hm]. split.
+  - apply view_ok_spec. assumption.
+  - eapply mon_walk_nowd; eauto.
+Qed.
+
+(* ---------- top-level action records ---------- *)
+Lemma dumps_eqb_refl : forall d, dumps_eqb d d = true.
+Proof.
+  induction d as [|[i x] d IH]; cbn [dumps_eqb]; [reflexivity|].
+  rewrite Pos.eqb_refl, view_eqb_refl. exact IH.
+Qed.
+
+Lemma view_eqb_eq : forall a b, view_eqb a b = true -> a = b.
+Proof.
+  induction a as [|[k x] a IH]; intros [|[k' y] b] H; cbn [view_eqb] in H; try discriminate; [reflexivity|].
+  rewrite !andb_true_iff in H. destruct H as [[H1 H2] H3].
+  apply Z.eqb_eq in H1. apply Pos.eqb_eq in H2. subst. f_equal. auto.
+Qed.
+
+Lemma dumps_eqb_eq : forall a b, dumps_eqb a b = true -> a = b.
+Proof.
+  induction a as [|[i x] a IH]; intros [|[j y] b] H; cbn [dumps_eqb] in H; try discriminate; [reflexivity|].
+  rewrite !andb_true_iff in H. destruct H as [[H1 H2] H3].
+  apply Pos.eqb_eq in H1. apply view_eqb_eq in H2. subst. f_equal. auto.
+Qed.
+
+Lemma dumps_of_ok : forall s ids, Inv s -> dumps_ok (dumps_of s ids) = true.
+Proof.
+  intros s ids H. unfold dumps_ok, dumps_of. apply forallb_forall. intros [i l] Hin.
+  apply in_flat_map in Hin. destruct Hin as [j [_ Hj]]. unfold dump, watches_of in Hj.
+  destruct (itab s j) as [jr|] eqn:Ej; [|destruct Hj].
+  destruct Hj as [E|[]]. inversion E; subst. cbn [snd]. eapply inv_view_ok; eauto.
+Qed.
+
+Lemma dumps_of_ext : forall s s' ids, (forall j, watches_of s' j = watches_of s j) -> dumps_of s' ids = dumps_of s ids.
+Proof.
+  intros s s' ids Hw. unfold dumps_of, dump. induction ids as [|i ids IH]; [reflexivity|].
+  cbn [flat_map]. rewrite Hw, IH. reflexivity.
+Qed.
+
+(* a registration for which inotify_add_watch answers -1: rc -1 (or skipped, rc 1), every watch set unchanged *)
+Lemma c20_failed_registration : forall s w i m, Inv s ->
+  exists s' rc, do_act s (ARegW w i (-1) m) = (Ok s', rc) /\ (rc = -1 \/ rc = 1) /\ Inv s' /\
+    (forall j, watches_of s' j = watches_of s j) /\ (forall x, wtab s' x = wtab s x) /\ frame s' = frame s.
+Proof.
+  intros s w i m H. cbn [do_act]. unfold allocated, live.
+  destruct (wtab s w) as [wr0|] eqn:Ew; cbn [orb].
+  { exists s, 1. split; [reflexivity|]. split; [auto|]. split; [assumption|]. auto. }
+  destruct (itab s i) as [ir|] eqn:Ei; cbn [negb].
+  2:{ exists s, 1. split; [reflexivity|]. split; [auto|]. split; [assumption|]. auto. }
+  unfold watch_register. cbn [set_watch set_wtab wtab itab]. rewrite upd_same. cbn [w_inst w_mask]. rewrite Ei.
+  change (-1 =? -1) with true. cbv iota. change (-1 =? 0) with false. cbv iota.
+  eexists _, (-1). split; [reflexivity|]. split; [auto|].
+  assert (Hx : forall x, upd (upd (upd (wtab s) w (Some {| w_inst := i; w_wd := poison32; w_mask := m |})) w
+                              (Some {| w_inst := i; w_wd := -1; w_mask := m |})) w None x = wtab s x).
+  { intros x. destruct (Pos.eq_dec x w) as [->|n]; [rewrite upd_same; auto|rewrite !upd_other by assumption; reflexivity]. }
+  split; [|split; [|split]]; cbn [free_watch set_watch set_wtab itab wtab frame watches_of]; auto.
+  eapply Inv_ext; [| | |exact H]; cbn [free_watch set_watch set_wtab itab wtab frame]; auto.
+Qed.
+
+(* the monitor accepts every top-level action of the model *)
+Lemma c20_monitor_act_accepts : forall s a ids, Inv s ->
+  exists s' rc, do_act s a = (Ok s', rc) /\ Inv s' /\
+                mon_act (dumps_of s ids) (dumps_of s' ids) a rc = true.
+Proof.
+  intros s a ids H. destruct (do_act_ok s a H) as (s' & rc & E & H' & _).
+  exists s', rc. split; [assumption|]. split; [assumption|].
+  unfold mon_act. rewrite (dumps_of_ok s' ids H'), (do_act_reg_ok s a _ rc E). cbn [andb].
+  destruct a as [i ok|i|w i wd m|w]; try reflexivity.
+  unfold no_wd. destruct (Z.eqb_spec wd (-1)) as [->|]; [|reflexivity].
+  destruct (c20_failed_registration s w i m H) as (s1 & rc1 & E1 & _ & _ & Hw & _).
+  rewrite E in E1. inversion E1; subst s1 rc1.
+  rewrite (dumps_of_ext s s' ids Hw). apply dumps_eqb_refl.
+Qed.
+
+(* what acceptance of an action record means, for any observed record *)
+Lemma c20_monitor_act_sound : forall before after a rc, mon_act before after a rc = true ->
+  (forall i l w, In (i, l) after -> ~ In (-1, w) l) /\
+  (forall w i m, a = ARegW w i (-1) m -> (rc = -1 \/ rc = 1) /\ after = before).
+Proof.
+  intros before after a rc Hm. unfold mon_act in Hm. rewrite !andb_true_iff in Hm. destruct Hm as [[Hd Hr] Hu]. split.
+  - intros i l w Hin. unfold dumps_ok in Hd. rewrite forallb_forall in Hd. specialize (Hd _ Hin). cbn [snd] in Hd.
+    apply view_ok_spec. assumption.
+  - intros w i m ->. cbn in Hr, Hu. split.
+    + apply orb_prop in Hr. destruct Hr as [Hr|Hr]; apply Z.eqb_eq in Hr; auto.
+    + symmetry. apply dumps_eqb_eq. assumption.
+Qed.
+
+(* an event with wd -1 (queue overflow) is for no watch of any instance *)
+Lemma c20_overflow_unrouted : forall s i, Inv s -> reg_of s i (-1) = None.
+Proof.
+  intros s i H. unfold reg_of, watches_of. destruct (itab s i) as [ir|] eqn:Ei; [|reflexivity].
+  apply lookup_none. intros w. eapply inv_wd; eauto.
 Qed.
 
 (* ---------- whole scenarios ---------- *)
